@@ -63,6 +63,8 @@ FORMS = {
     'pva': ['ndarray', 'labels_permuted', 'labels_reversed'],
     # an integer seed: Python int or a numpy integer (an element of an array of seeds)
     'seed': ['ndarray', 'np_int64', 'np_int32'],
+    # an array whose values happen to be whole numbers: float64, int64 or a list of ints
+    'wholes': ['ndarray', 'int64', 'int_list'],
 }
 
 
@@ -71,6 +73,9 @@ def apply_form(value, kind, form, cols=None, index=None):
         return value
     if kind == 'seed':
         return np.int64(value) if form == 'np_int64' else np.int32(value)
+    if kind == 'wholes':
+        ints = np.asarray(value).astype(np.int64)
+        return ints if form == 'int64' else ints.tolist()
     if kind == 'pva':
         ser = value
         labels = list(ser.index)
@@ -151,6 +156,11 @@ class Context:
         traj = strapdown.Integrator(pva0, True).integrate(inc)
         if not W.in_fence(traj):
             return False
+        # the time index of the caller's tables is called 'time', something else, or nothing
+        nm = ['time', 'time', None, 't'][int(r.integers(4))]
+        imu.index.name = nm
+        inc = inc.copy()
+        inc.index = pd.Index(np.asarray(inc.index), name=[nm, None][int(r.integers(2))])
         self.pool = {}
         self.add('imu', imu)
         self.add('increments', inc)
@@ -351,6 +361,10 @@ def _(cx, r):
 @template('transform.ecef_to_lla')
 def _(cx, r):
     r_e = transform.lla_to_ecef(cx.lla(r))
+    if r.random() < 0.4:
+        # coordinates that are whole metres, as floats / integers / a list of integers
+        return Call('transform.ecef_to_lla[whole metres]', transform.ecef_to_lla,
+                    [Arg(np.round(r_e), 'wholes')])
     return Call('transform.ecef_to_lla', transform.ecef_to_lla, [Arg(r_e, 'plain')],
                 row0=False)
 
@@ -557,9 +571,16 @@ def _psd(r, n, scale=1.0):
 @template('kalman.compute_process_matrices')
 def _(cx, r):
     n = int(r.integers(1, 8))
+    F, dt = r.standard_normal((n, n)) * 0.3, float(r.uniform(0, 2))
+    prev = getattr(cx, 'last_process_args', None)
+    if prev is not None and r.random() < 0.5:
+        # the same dynamics and step again with ANOTHER noise density (a noise sweep)
+        F, dt = prev[0].copy(), prev[1]
+        n = len(F)
+    cx.last_process_args = (F.copy(), dt)
     return Call('kalman.compute_process_matrices', kalman.compute_process_matrices,
-                [Arg(r.standard_normal((n, n)) * 0.3, 'plain'), Arg(_psd(r, n), 'plain'),
-                 Arg(float(r.uniform(0, 2)), 'plain')])
+                [Arg(F, 'plain'), Arg(_psd(r, n, float(10 ** r.uniform(-3, 1))), 'plain'),
+                 Arg(dt, 'plain')])
 
 
 @template('kalman.correct')
